@@ -42,6 +42,13 @@ pub struct Tracker {
     live: AtomicUsize,
     /// number of granted `mutate` actions so far
     granted: AtomicUsize,
+    /// maximum over time of `live` (sampled right after each sharing clone).  Since `live` is
+    /// incremented only AFTER the counter increment of a clone and decremented BEFORE the counter
+    /// decrement of a drop, `live - initial` never over-estimates how far the stored count has
+    /// moved up: `max_live - initial > slack` proves that the stored count passed the ceiling.
+    max_live: AtomicUsize,
+    /// number of clones that returned a SHARING handle
+    shared_clones: AtomicUsize,
 }
 
 impl Tracker {
@@ -52,6 +59,8 @@ impl Tracker {
             freed_by: StdMutex::new(None),
             live: AtomicUsize::new(0),
             granted: AtomicUsize::new(0),
+            max_live: AtomicUsize::new(0),
+            shared_clones: AtomicUsize::new(0),
         }
     }
     fn freed(&self) -> usize {
@@ -218,7 +227,9 @@ fn thread_body(
                 let h = handles.last().unwrap();
                 let c = H::new(Sm::clone(&h.0));
                 if c.payload_ptr() == h.payload_ptr() {
-                    tracker.live.fetch_add(1, StdOrd::SeqCst);
+                    let now = tracker.live.fetch_add(1, StdOrd::SeqCst) + 1;
+                    tracker.max_live.fetch_max(now, StdOrd::SeqCst);
+                    tracker.shared_clones.fetch_add(1, StdOrd::SeqCst);
                     handles.push(c);
                     results.push(0);
                 } else {
@@ -302,6 +313,7 @@ fn run_once(prog: &Prog, sink: &Sink) {
         pool.push(c);
     }
     tracker.live.store(total, StdOrd::SeqCst);
+    tracker.max_live.store(total, StdOrd::SeqCst);
     match prog.start {
         Start::Normal => {}
         Start::Ceil => pool[0].0.verif_set_count(usize::MAX),
@@ -376,6 +388,28 @@ fn run_once(prog: &Prog, sink: &Sink) {
         .or_insert(0) += 1;
 
     // ---- end-of-execution monitors and cleanup ----
+    if at_ceiling {
+        // quiescence check, BEFORE the count is restored: the stored count started at
+        // ceiling - slack, so at most `slack` more shares may ever have existed at once
+        let slack = usize::from(prog.start == Start::CeilMinus1);
+        let max_excess = tracker.max_live.load(StdOrd::SeqCst) - total;
+        // direct cross-check without bookkeeping: in a program made of `clone`s only, every
+        // sharing clone (result 0) is one more share
+        let clone_only = prog.threads.iter().flatten().all(|a| *a == Act::Clone);
+        let shared = tracker.shared_clones.load(StdOrd::SeqCst);
+        let beyond = if max_excess > slack {
+            max_excess - slack
+        } else if clone_only && shared > slack {
+            shared - slack
+        } else {
+            0
+        };
+        if beyond > 0 {
+            panic!(
+                "monitor: {beyond} clone(s) shared the buffer beyond the share-count ceiling (stored count started at ceiling-{slack}, at most {slack} more share(s) allowed)"
+            );
+        }
+    }
     let granted = tracker.granted.load(StdOrd::SeqCst);
     if freed == 0 && leftovers.is_empty() {
         panic!("monitor: leak: every handle has been dropped but the payload was never freed");
@@ -418,6 +452,7 @@ fn run_once(prog: &Prog, sink: &Sink) {
 #[derive(Clone, Debug)]
 pub struct LoomResult {
     /// ok | race | double-free | use-after-free | leak | content | unique-while-shared |
+    /// count-mismatch |
     /// deadlock | branch-limit | error
     pub verdict: String,
     /// outcome string -> number of executions that produced it
@@ -441,6 +476,8 @@ fn classify(msg: &str) -> &'static str {
         "content"
     } else if msg.contains("monitor: unique access granted") {
         "unique-while-shared"
+    } else if msg.contains("shared the buffer beyond the share-count ceiling") {
+        "count-mismatch"
     } else if msg.contains("Causality violation")
         || msg.contains("currently writing to cell")
         || msg.contains("currently reading from cell")
@@ -459,7 +496,13 @@ fn classify(msg: &str) -> &'static str {
 pub fn is_monitor(verdict: &str) -> bool {
     matches!(
         verdict,
-        "race" | "double-free" | "use-after-free" | "leak" | "content" | "unique-while-shared"
+        "race"
+            | "double-free"
+            | "use-after-free"
+            | "leak"
+            | "content"
+            | "unique-while-shared"
+            | "count-mismatch"
     )
 }
 
